@@ -249,6 +249,10 @@ def closure_rules(model, R):
         if len(parts) != len(want):
             R.bad('WIRING', f, ret, f'{name}: result arity', str(len(want)), str(len(parts)))
             continue
+        nested_loops = [n for s_ in f.body if not isinstance(s_, ast.While) for n in ast.walk(s_) if isinstance(n, (ast.While, ast.For))]
+        if nested_loops:
+            R.unknown('WIRING', f, nested_loops[0], f'{name}: reduction phases', 'a scan loop nested in another statement (not the flat phase structure)')
+            continue
         if any((isinstance(x, tuple) and x and x[0] == 'unknown') for x in val.values()):
             R.unknown('WIRING', f, f.node, f'{name}: reduction phases', 'a value is computed by a call the rule does not follow')
             continue
@@ -302,6 +306,19 @@ def relation_new(model, R):
     cls_, xname, yname, xmem, ymem, xbools = f.params[:6]
     # X, Y classes on both construction paths
     for s in stmts(f.body):
+        if (isinstance(s, ast.Assign) and isinstance(s.targets[0], ast.Tuple) and {'X', 'Y'} & {getattr(e, 'id', None) for e in s.targets[0].elts}
+                and isinstance(s.value, ast.Call)):
+            callee = chain(s.value.func)
+            target = f.module.funcs.get(callee[0]) if callee and len(callee) == 1 else None
+            cached = target is not None and any((chain(d.func if isinstance(d, ast.Call) else d) or [''])[-1] in ('lru_cache', 'cache', 'cached')
+                                                for d in target.node.decorator_list)
+            if cached:
+                R.bad('WIRING', f, s, 'X, Y are classes created for this relation', 'direct calls of the bitsets class factory (one new class per relation)',
+                      f'{src(s.value.func)}(...) is memoised',
+                      extra={'consequence': 'the derivation closures are stored on the class: sharing it between contexts with equal labels '
+                                            'rebinds the closures of the earlier context to the later table'})
+            else:
+                R.unknown('WIRING', f, s, 'X, Y are classes created for this relation', f'factory {src(s.value.func)}')
         if isinstance(s, ast.Assign) and isinstance(s.targets[0], ast.Name) and s.targets[0].id in ('X', 'Y') and isinstance(s.value, ast.Call):
             want = (xname, xmem) if s.targets[0].id == 'X' else (yname, ymem)
             got = tuple(src(a) for a in s.value.args[:2])
